@@ -151,16 +151,18 @@ class FloatValidatorBase(FieldValidator[_P, float], Generic[_P, _C], metaclass=A
             ValueError: Value cannot be precisely represented with this datatype
         """
 
-        # Note: This may not be worth it since this is a rare overflow case.
-        try:
-            if math.isinf(self._ctype(max(value)).value) or math.isinf(
-                self._ctype(min(value)).value
-            ):
+        # Note: max()/min() can not be used here, a NaN in the sequence hides the other values
+        for v in value:
+            if not isinstance(v, (float, int)):
+                raise TypeError(f"Expected {value!r} to contain all float types.")
+            try:
+                overflow = math.isinf(self._ctype(v).value)
+            except OverflowError:
+                overflow = True
+            if overflow:
                 raise ValueError(
                     f"{value} contains value(s) that can not be represented as a {type(self).__name__}"
                 )
-        except TypeError:
-            raise TypeError(f"Expected {value!r} to contain all float types.")
 
     def __repr__(self):
         return f"{type(self).__name__} at 0x{id(self):016X}"
